@@ -49,6 +49,76 @@ Lemma ids_insert_other st k r sid : sid <> s_id r -> sget sid (c_ids (insert st 
 Proof. intros; unfold insert; cbn. apply sget_sset_other; auto. Qed.
 
 (* ---------------------------------------------------------------------------------------------
+   clear_queue fails the streams whose PUSH_PROMISE it drops (repair cc6ac6c) *)
+
+Lemma failed_promise_idem c : failed_promise (failed_promise c) = failed_promise c.
+Proof. reflexivity. Qed.
+
+Definition same_or_failed (st st' : conn) (k : N) : Prop :=
+  kget st' k = kget st k \/ exists c, kget st k = Some c /\ kget st' k = Some (failed_promise c).
+
+Lemma same_or_failed_refl st k : same_or_failed st st k.
+Proof. left; reflexivity. Qed.
+
+Lemma same_or_failed_trans st1 st2 st3 k :
+  same_or_failed st1 st2 k -> same_or_failed st2 st3 k -> same_or_failed st1 st3 k.
+Proof.
+  intros [H1|(c & H1 & H1')] [H2|(d & H2 & H2')].
+  - left; congruence.
+  - right. exists d. rewrite <- H1. auto.
+  - right. exists c. split; auto. congruence.
+  - right. exists c. split; auto. rewrite H2'. rewrite H1' in H2. inversion H2; subst. reflexivity.
+Qed.
+
+Lemma fail_promised_one_spec st f k : same_or_failed st (fail_promised_one st f) k.
+Proof.
+  destruct f; try apply same_or_failed_refl. cbn [fail_promised_one].
+  destruct (iget st promised) as [[ck c]|] eqn:Ei; [|apply same_or_failed_refl].
+  destruct (N.eq_dec k ck) as [->|Hne].
+  - right. exists c. split; [|apply kget_put_same].
+    unfold iget in Ei. destruct (sget promised (c_ids st)); [|discriminate].
+    destruct (kget st n) eqn:E; [|discriminate]. inversion Ei; subst; auto.
+  - left. apply kget_put_other; auto.
+Qed.
+
+Lemma fail_promised_spec q : forall st k, same_or_failed st (fail_promised st q) k.
+Proof.
+  induction q as [|f q IH]; intros st k; cbn [fail_promised fold_left]; [apply same_or_failed_refl|].
+  eapply same_or_failed_trans; [apply fail_promised_one_spec|apply IH].
+Qed.
+
+Lemma drop_promises_spec st o q k : same_or_failed st (drop_promises st o q) k.
+Proof. unfold drop_promises. destruct (has_cleared o); [apply fail_promised_spec|apply same_or_failed_refl]. Qed.
+
+Fixpoint no_push (q : list qframe) : bool :=
+  match q with [] => true | QPush _ :: _ => false | _ :: q' => no_push q' end.
+
+Lemma fail_promised_no_push q : forall st, no_push q = true -> fail_promised st q = st.
+Proof.
+  induction q as [|f q IH]; intros st H; cbn [fail_promised fold_left]; auto.
+  destruct f; cbn [no_push] in H; try discriminate; cbn [fail_promised_one]; apply IH; auto.
+Qed.
+
+Lemma drop_promises_no_push st o q : no_push q = true -> drop_promises st o q = st.
+Proof. intros H. unfold drop_promises. destruct (has_cleared o); auto. apply fail_promised_no_push; auto. Qed.
+
+Lemma drop_put_other st k r2 o q k0 :
+  k0 <> k -> same_or_failed st (drop_promises (put st k r2) o q) k0.
+Proof.
+  intros Hne. destruct (drop_promises_spec (put st k r2) o q k0) as [H|(c & H & H')].
+  - left. rewrite H. apply kget_put_other; auto.
+  - right. exists c. rewrite kget_put_other in H by auto. auto.
+Qed.
+
+Lemma drop_put_same st k r2 o q :
+  kget (drop_promises (put st k r2) o q) k = Some r2 \/ kget (drop_promises (put st k r2) o q) k = Some (failed_promise r2).
+Proof.
+  destruct (drop_promises_spec (put st k r2) o q k) as [H|(c & H & H')].
+  - left. rewrite H. apply kget_put_same.
+  - right. rewrite kget_put_same in H. inversion H; subst. auto.
+Qed.
+
+(* ---------------------------------------------------------------------------------------------
    outputs *)
 
 Fixpoint has_app (o : list out) : bool :=
@@ -341,51 +411,56 @@ Ltac finish0 :=
 
 Theorem recv_confined st l sid t st' outs :
   recv_frame l = Some (sid, t) -> step st l = Ok st' outs ->
-  (forall k, k <> touched st l -> kget st' k = kget st k) /\ has_emit outs = false.
+  (forall k, k <> touched st l -> same_or_failed st st' k) /\ has_emit outs = false.
 Proof.
   intros Hl Hs. destruct l; cbn [recv_frame] in Hl; try discriminate; inversion Hl; subst; clear Hl;
     cbn [step touched] in *.
   - (* HEADERS *)
     unfold step_recv_headers in Hs.
     destruct (sid =? 0); [discriminate|].
-    destruct (c_recv_max st <? sid); [use_res1 Hs; split; auto|].
+    destruct (c_recv_max st <? sid); [use_res1 Hs; split; auto; intros; apply same_or_failed_refl|].
     destruct (iget st sid) as [[k r]|] eqn:Ei.
     + unf. cbn [s_popen s_state set_state] in Hs. peel Hs; use_res1 Hs;
-        (split; [intros; try apply kget_put_other; auto | reflexivity]).
-    + destruct (negb (is_server (c_role st)) && may_have_forgotten st sid); [use_res1 Hs; split; auto|].
+        (split; [intros; first [apply same_or_failed_refl | apply drop_put_other; auto] | reflexivity]).
+    + destruct (negb (is_server (c_role st)) && may_have_forgotten st sid); [use_res1 Hs; split; auto; intros; apply same_or_failed_refl|].
       pose proof (recv_open_id_slab st sid false (h_can_open o)) as Ho.
       destruct (recv_open_id st sid false (h_can_open o)) as [e|st1|st1|]; try discriminate.
-      * use_res1 Hs; split; auto.
-      * use_res1 Hs; destruct Ho as (Hsl & _). split; auto. intros; unfold kget; rewrite Hsl; auto.
+      * use_res1 Hs; split; auto; intros; apply same_or_failed_refl.
+      * use_res1 Hs; destruct Ho as (Hsl & _). split; auto. intros; left; unfold kget; rewrite Hsl; auto.
       * destruct Ho as (Hsl & Hid & _). destruct (kget st1 nk) eqn:Ek; [discriminate|].
-        unf. cbn [s_popen s_state set_state new_rec] in Hs. peel Hs; use_res1 Hs;
-        (split; [intros; rewrite ?kget_put_other by auto; rewrite ?kget_insert_other by auto; unfold kget; rewrite Hsl; auto | reflexivity]).
+        unf. cbn [s_popen s_state set_state new_rec s_q] in Hs. unfold drop_promises in Hs. cbn [fail_promised fold_left] in Hs.
+        peel Hs; use_res1 Hs;
+        (split; [intros; left; rewrite ?kget_put_other by auto; rewrite ?kget_insert_other by auto; unfold kget; rewrite Hsl; auto | reflexivity]).
   - (* DATA *)
     unf. destruct (sid =? 0); [discriminate|].
     destruct (iget st sid) as [[k r]|] eqn:Ei.
-    + peel Hs; use_res1 Hs; (split; [intros; try apply kget_put_other; auto | reflexivity]).
-    + peel Hs; use_res1 Hs; split; auto.
+    + peel Hs; use_res1 Hs; (split; [intros; first [apply same_or_failed_refl | apply drop_put_other; auto] | reflexivity]).
+    + peel Hs; use_res1 Hs; split; auto; intros; apply same_or_failed_refl.
   - (* RST *)
     unf. destruct (iget st sid) as [[k r]|] eqn:Ei; peel Hs; use_res1 Hs;
-      (split; [intros; try apply kget_put_other; auto | reflexivity]).
+      (split; [intros; first [apply same_or_failed_refl | apply drop_put_other; auto] | reflexivity]).
   - unf. destruct (iget st sid) as [[k r]|] eqn:Ei; peel Hs; use_res1 Hs;
-      (split; [intros; try apply kget_put_other; auto | reflexivity]).
+      (split; [intros; first [apply same_or_failed_refl | apply drop_put_other; auto] | reflexivity]).
   - (* PP *)
     unf. destruct (sid =? 0); [discriminate|].
-    destruct (iget st sid) as [[k r]|] eqn:Ei; [|use_res1 Hs; split; auto].
-    destruct (c_recv_max st <? sid); [use_res1 Hs; split; auto|].
-    destruct (is_local_error (s_state r)); [peel Hs; use_res1 Hs; split; auto|].
-    destruct (ensure_recv_open (s_state r)) as [|b| | | |]; try (use_res1 Hs; split; auto).
-    destruct b; [|use_res1 Hs; split; auto].
-    destruct (negb (c_push_local st)); [use_res1 Hs; split; auto|].
+    destruct (iget st sid) as [[k r]|] eqn:Ei; [|use_res1 Hs; split; auto; intros; apply same_or_failed_refl].
+    destruct (c_recv_max st <? sid); [use_res1 Hs; split; auto; intros; apply same_or_failed_refl|].
     pose proof (recv_open_id_slab st promised true (p_can_open o)) as Ho.
+    destruct (is_local_error (s_state r)).
+    { destruct (negb (c_push_local st)); [use_res1 Hs; split; auto; intros; apply same_or_failed_refl|].
+      destruct (recv_open_id st promised true (p_can_open o)) as [e|st1|st1|]; try discriminate;
+        use_res1 Hs; split; auto; intros; try apply same_or_failed_refl;
+        destruct Ho as (Hsl & _); left; unfold kget; rewrite Hsl; auto. }
+    destruct (ensure_recv_open (s_state r)) as [|b| | | |]; try (use_res1 Hs; split; auto; intros; apply same_or_failed_refl).
+    destruct b; [|use_res1 Hs; split; auto; intros; apply same_or_failed_refl].
+    destruct (negb (c_push_local st)); [use_res1 Hs; split; auto; intros; apply same_or_failed_refl|].
     destruct (recv_open_id st promised true (p_can_open o)) as [e|st1|st1|]; try discriminate.
-    * use_res1 Hs; split; auto.
-    * use_res1 Hs; destruct Ho as (Hsl & _). split; auto. intros; unfold kget; rewrite Hsl; auto.
+    * use_res1 Hs; split; auto; intros; apply same_or_failed_refl.
+    * use_res1 Hs; destruct Ho as (Hsl & _). split; auto. intros; left; unfold kget; rewrite Hsl; auto.
     * destruct Ho as (Hsl & Hid & _). destruct (kget st1 nk) eqn:Ek; [discriminate|].
       cbn [new_rec s_state reserve_remote set_state] in Hs. peel Hs; use_res1 Hs;
-      (split; [intros; rewrite ?kget_insert_other by auto; unfold kget; rewrite Hsl; auto | reflexivity]).
-  - use_res1 Hs. split; auto.
+      (split; [intros; left; rewrite ?kget_insert_other by auto; unfold kget; rewrite Hsl; auto | reflexivity]).
+  - use_res1 Hs. split; auto. intros; apply same_or_failed_refl.
 Qed.
 
 (* ---------------------------------------------------------------------------------------------
@@ -426,7 +501,7 @@ Proof.
   assert (Hf : sid <> 0 -> may_have_forgotten st sid = false).
   { intros Hz. unfold may_have_forgotten, not_idle in *. destruct (sid =? 0); auto. }
   destruct l; cbn [recv_frame] in Hl; try discriminate; inversion Hl; subst; clear Hl; cbn [step] in Hs;
-    unf; rewrite ?Hi, ?Hmax, ?Hidle in Hs; try congruence;
+    unf; rewrite ?Hi, ?Hmax, ?Hidle in Hs; cbn [andb] in Hs; try congruence;
     (destruct (sid =? 0) eqn:Ez; [try discriminate|apply N.eqb_neq in Ez; rewrite ?(Hf Ez) in Hs]);
     try (use_res1 Hs; cbn; auto; fail).
   (* HEADERS on an identifier of ours *)
